@@ -1253,6 +1253,25 @@ pub fn generate_c11(tier: &str, seed: u64, out: &mut Out) {
             }
         }
     }
+    // replacements that compare equal to what they replace under the crate's loose `==`
+    // (architectures as a set, versions by their order) but are WRITTEN differently: the list
+    // model is textual, the field must show the new spelling (after seeded change C11-r7m1)
+    let x = |t: &str| es(t);
+    let resp_start = "a (= 1.0) | b [amd64 i386], c (>= 0:2) <x y>";
+    for op in [
+        format!("erepl.f.0.1.p.{}", x("b [i386 amd64]")),
+        format!("erepl.h.0.1.c.{}", x("b [amd64 amd64 i386]")),
+        format!("erepl.f.0.0.p.{}", x("a (= 1.00)")),
+        format!("erepl.f.0.0.c.{}", x("a (= 0:1.0)")),
+        format!("erepl.f.0.0.b.{}", x("a (= 1.0-0)")),
+        format!("erepl.f.1.0.p.{}", x("c (>= 2) <x y>")),
+        format!("repl.0.p.{}", x("a (= 1.00) | b [i386 amd64]")),
+        format!("repl.0.c.{}", x("a (= 0:1.0) | b [amd64 i386]")),
+        format!("repl.1.p.{}", x("c (>= 2) <x y>")),
+    ] {
+        out.req("rel.hist", &[es(resp_start), "0".to_string(), op.clone()]);
+        out.req("rel.hist", &[es(resp_start), "0".to_string(), format!("{},{}", op, "rme.f.0")]);
+    }
     let n = if thorough { 400_000 } else { 40_000 };
     for _ in 0..n {
         let (start, allow) = STARTS[rng.below(STARTS.len())];
